@@ -87,11 +87,16 @@ pub struct Emit<'a> {
     nshards: u64,
     sweep_idx: u64,
     stats: Stats,
+    /// C14: route every generated case through case14
+    pub redirect14: bool,
 }
 
 impl Emit<'_> {
     /// an ordinary case: sharded by content so that equal cases meet and distinct counts are exact
     pub fn case(&mut self, comp: u64, case: Sx) {
+        if self.redirect14 {
+            return self.case14(comp, case);
+        }
         let mine = self.nshards == 1 || {
             use std::hash::{Hash, Hasher};
             let mut h = std::collections::hash_map::DefaultHasher::new();
@@ -104,6 +109,39 @@ impl Emit<'_> {
             self.stats.record(self.prop, comp, &case, &evs, true);
             emit_line(self.out, comp, &case, &evs);
         }
+    }
+    /// C14: the case of another component, run under every sink (and twice into the vector): the observations must
+    /// be identical.  Emitted as component 100 + comp with a trailing number = how many runs differed.
+    pub fn case14(&mut self, comp: u64, case: Sx) {
+        let mine = self.nshards == 1 || {
+            use std::hash::{Hash, Hasher};
+            let mut h = std::collections::hash_map::DefaultHasher::new();
+            comp.hash(&mut h);
+            case.show().hash(&mut h);
+            (h.finish() >> 7) % self.nshards == self.shard
+        };
+        if !mine {
+            return;
+        }
+        tcommon::SINK_MODE.with(|m| m.set(0));
+        tcommon::SINK_MISMATCH.with(|m| m.set(0));
+        let base = run_component(comp, &case);
+        let mut differing = 0u64;
+        if run_component(comp, &case) != base {
+            differing += 1;
+        }
+        for mode in 1..=5u8 {
+            tcommon::SINK_MODE.with(|m| m.set(mode));
+            if run_component(comp, &case) != base {
+                differing += 1;
+            }
+        }
+        tcommon::SINK_MODE.with(|m| m.set(0));
+        differing += tcommon::SINK_MISMATCH.with(|m| m.get());
+        let mut evs = base;
+        evs.push(Ev::Num(differing));
+        self.stats.record(self.prop, 100 + comp, &case, &evs, true);
+        emit_line(self.out, 100 + comp, &case, &evs);
     }
     /// a case of an enumeration without repetition (exhaustive sweeps): sharded by index, not hashed
     pub fn sweep(&mut self, comp: u64, case: Sx) {
@@ -231,7 +269,7 @@ fn classify(_prop: u32, comp: u64, case: &Sx, _evs: &[Ev]) -> Vec<String> {
 fn table_gens(prop: u32, tier: &str, rng: &mut Rng, emit: &mut Emit) {
     let only: Option<u64> = std::env::var("HARNESS_ONLY").ok().and_then(|s| s.parse().ok());
     let comps: &[u64] = match prop {
-        1 | 2 | 4 => &[10, 11, 12, 13, 14, 15, 16, 17, 18, 19, 20, 21, 22, 23, 24, 25, 26, 27, 28, 29, 30, 31],
+        1 | 2 | 4 | 14 => &[10, 11, 12, 13, 14, 15, 16, 17, 18, 19, 20, 21, 22, 23, 24, 25, 26, 27, 28, 29, 30, 31],
         3 => &[10, 11, 12, 13, 14, 15, 16, 17, 18, 19, 20, 21, 22],
         5 => &[16, 17, 18, 19],
         11 => &[12, 13, 15, 16, 18, 19, 20, 21, 24, 26],
@@ -293,7 +331,7 @@ fn main() {
             let shard: u64 = args.get(5).map(|s| s.parse().unwrap()).unwrap_or(0);
             let nshards: u64 = args.get(6).map(|s| s.parse().unwrap()).unwrap_or(1);
             let mut rng = Rng(seed ^ 0xC0FF_EE00 ^ ((prop as u64) << 32));
-            let mut emit = Emit { out: &mut out, prop, shard, nshards, sweep_idx: 0, stats: Stats::default() };
+            let mut emit = Emit { out: &mut out, prop, shard, nshards, sweep_idx: 0, stats: Stats::default(), redirect14: false };
             match prop {
                 6 => amlterm::gen_c06(tier, &mut rng, &mut emit),
                 10 => amlterm::gen_c10(tier, &mut rng, &mut emit),
@@ -303,6 +341,14 @@ fn main() {
                 9 => kernels::gen_c09(tier, &mut rng, &mut emit),
                 16 => kernels::gen_c16(tier, &mut rng, &mut emit),
                 17 => cksum::gen(tier, &mut rng, &mut emit),
+                14 => {
+                    // objects produced by the table and AML generators, each into every sink
+                    emit.redirect14 = true;
+                    table_gens(1, tier, &mut rng, &mut emit);
+                    amlterm::gen_c06(tier, &mut rng, &mut emit);
+                    amlterm::gen_c10("quick", &mut rng, &mut emit);
+                    emit.redirect14 = false;
+                }
                 1 | 2 | 3 | 4 | 5 | 11 | 12 | 13 => table_gens(prop, tier, &mut rng, &mut emit),
                 _ => panic!("harness: no generator for property {}", prop),
             }
